@@ -7,6 +7,7 @@ import (
 	"context"
 	"errors"
 	"fmt"
+	"runtime"
 	"slices"
 	"sort"
 	"strings"
@@ -277,6 +278,7 @@ func (p publicKey) Key() any { return p.k.Pub }
 type ExchangePolicy struct {
 	DefaultType   oidc.TokenType // requested type when the request leaves it empty
 	Veto          bool           // refuse every exchange
+	VetoError     string         // how it says no: "" = an OAuth error, "plain" = some error, "canceled" = an error wrapping context.Canceled
 	VetoAt        string         // which callback says no: "" = ValidateTokenExchangeRequest, "create", "claims", "userinfo"
 	ImpersonateAs string         // non-empty: SetSubject to this user
 	DropScopes    []string       // scopes the policy removes
@@ -321,6 +323,10 @@ type Store struct {
 
 	idSeq int
 
+	// Yields says how many times a call yields the processor before it proceeds (seeded: how long the "I/O" takes
+	// relative to other goroutines of the process); nil = once.
+	Yields func() int
+
 	// Sentinel is the reused *oidc.Error of FaultSentinel (one value per store, handed out again and again).
 	Sentinel *oidc.Error
 }
@@ -342,6 +348,15 @@ func (s *Store) nextID(prefix string) string {
 // enter journals a call and applies fault injection. It returns the injected
 // fault kind (the caller turns it into the error it reports).
 func (s *Store) enter(ctx context.Context, method string, args ...any) (fault string, je *JournalEntry) {
+	// a storage call is blocking I/O: whatever else is runnable in the process (a goroutine the code under test
+	// started for this request) gets to run before the call returns
+	ny := 1
+	if s.Yields != nil {
+		ny = s.Yields()
+	}
+	for i := 0; i < ny; i++ {
+		runtime.Gosched()
+	}
 	forced := ""
 	if s.OnCall != nil {
 		forced = s.OnCall(ctx, method)
